@@ -31,6 +31,46 @@ def make_cases(ctx, n, big=False):
     return cases
 
 
+def corpus_cases(ctx):
+    """the repository's own example programs (tests/unit/test_programs, the README's complete example)"""
+    import glob
+    import os
+    import re
+    import recogniser
+    rng = ctx.rng
+    texts = []
+    for f in sorted(glob.glob(os.path.join(common.REPO, "tests", "unit", "test_programs", "*.pyab"))):
+        texts.append(open(f, encoding="utf-8").read())
+    try:
+        readme = open(os.path.join(common.REPO, "src", "pyab_experiment", "language", "README.rst"), encoding="utf-8").read()
+        m = re.search(r"(    def complex_experiment \{.*?\n    \})", readme, re.S)
+        if m:
+            texts.append("\n".join(l[4:] for l in m.group(1).splitlines()))
+    except OSError:
+        pass
+    cases = []
+    for t in texts:
+        try:
+            r = recogniser.recognise(t)
+        except recogniser.Reject:
+            continue
+        names = set(r["splitters"] or [])
+
+        def ids(node):
+            if isinstance(node, tuple):
+                if node and node[0] == "id":
+                    names.add(node[1])
+                for x in node:
+                    ids(x)
+            elif isinstance(node, list):
+                for x in node:
+                    ids(x)
+        ids(r["cond"])
+        envs = [{n: rng.choice([1, 5, 21, "US", "CA", "x", 2.5, "u%d" % rng.randrange(99)]) for n in names} for _ in range(4)]
+        cases.append({"prog": None, "text": t, "envs": envs, "must_compile": True})
+    return cases
+
+
 def k1_cases(ctx):
     """finding family K1: identifiers that are Python reserved words / names the generated code uses"""
     cases = []
@@ -73,7 +113,9 @@ def run(ctx):
                          "single-letter names, fields shared between splitters and conditions, identifiers and tuples "
                          "inside tuples; type-compatible inputs derived from the literals; distinct = distinct source text; "
                          "non-trivial = compiled")
-    progcases.run_cases(ctx, make_cases(ctx, n, big=True))
+    corpus = corpus_cases(ctx)
+    ctx.count("corpus-programs", len(corpus))
+    progcases.run_cases(ctx, corpus + make_cases(ctx, n, big=True))
     run_k1(ctx)
 
 
